@@ -219,13 +219,13 @@ fn two_lines(t1: f64, s1: Shape, l1: &'static str, t2: f64, s2: Shape, l2: &'sta
 }
 
 // ---- one line ----
-// @verif property=C12,C06,C01 tier=quick timeout=900 mem=16 bounds="1 line '0,$b,$c,$d,$e,$f,1,$g': time 0, timing change; beat length every f64 / error; signature, bank, custom bank, volume, flags every i32 / error; mode, default bank, default volume symbolic"
+// @verif property=C12 tier=quick timeout=900 mem=16 bounds="1 line '0,$b,$c,$d,$e,$f,1,$g': time 0, timing change; beat length every f64 / error; signature, bank, custom bank, volume, flags every i32 / error; mode, default bank, default volume symbolic"
 oracle_proof!(c12_one_timing_t0, 32, one_line(0.0, Shape::FullTiming, "0,$b,$c,$d,$e,$f,1,$g"));
-// @verif property=C12,C06,C01 tier=quick timeout=900 mem=16 bounds="1 line '10,$b,$c,$d,$e,$f,0,$g': time 10, inherited (NaN beat length allowed -> ticks off)" covers=2
+// @verif property=C12 tier=quick timeout=900 mem=16 bounds="1 line '10,$b,$c,$d,$e,$f,0,$g': time 10, inherited (NaN beat length allowed -> ticks off)" covers=2
 oracle_proof!(c12_one_inherited_t10, 32, one_line(10.0, Shape::FullInherited, "10,$b,$c,$d,$e,$f,0,$g"));
 // @verif property=C12,C06,C01 tier=quick timeout=900 mem=16 bounds="1 line '-5,$b' (only two fields: every default applies)"
 oracle_proof!(c12_one_short_tm5, 32, one_line(-5.0, Shape::Short, "-5,$b"));
-// @verif property=C12,C06,C01 tier=quick timeout=900 mem=16 bounds="1 line '20,$b,0,$d' (time signature text '0' keeps 4/4; four fields)"
+// @verif property=C12 tier=quick timeout=900 mem=16 bounds="1 line '20,$b,0,$d' (time signature text '0' keeps 4/4; four fields)"
 oracle_proof!(c12_one_zerosig_t20, 32, one_line(20.0, Shape::ZeroSig, "20,$b,0,$d"));
 
 /// A valid line, then a line at ANOTHER time that is always rejected (unparsable beat length):
@@ -242,7 +242,7 @@ fn reject_after_valid() {
     finish(ctx);
 }
 
-// @verif property=C12,C06 tier=quick timeout=1200 mem=16 bounds="valid line '10,$b', then the always-rejected line '20,x,...' at another time: pending group and lists untouched" covers=4
+// @verif property=C12,C06,C01 tier=quick timeout=1200 mem=16 bounds="valid line '10,$b', then the always-rejected line '20,x,...' at another time: pending group and lists untouched" covers=4
 oracle_proof!(c12_reject_after_valid, 32, reject_after_valid());
 
 // ---- two lines, same time (one group) ----
